@@ -264,7 +264,9 @@ def build_scripted(cfg):
     elif a in ("PaVeBaGP", "PaVeBaPartialGP"):
         alg.compute_alpha = lambda: np.float64(sc.get("alpha", 1.0))
     elif a == "PaVeBa":
-        alg.compute_radius = lambda: np.float64(max(1, sc["G"] // 2 - (alg.round - 1) // 3))
+        rr = np.random.RandomState(cfg.get("seed", 0) + 77)
+        radii = rr.randint(1, max(2, sc["G"] // 2 + 1) + 1, size=200)      # the common radius changes from round to round
+        alg.compute_radius = lambda: np.float64(radii[alg.round % 200])
     elif a == "Auer":
         def beta_rows():
             idx = list(alg.S)
